@@ -458,3 +458,12 @@ def replay(ctx, obj):
     for h in st['diffs']:
         v.append({'what': 'replay: impl %s vs model %s' % (str(h['impl'])[:300], str(h['model'])[:300]), 'replay_obj': obj, 'no_input': False})
     return dict(violations=v)
+
+def search_failing_input(ctx, broken):
+    """A theorem of Props/C15.v no longer checks (typically a code_<fn>_is_model equality of docs/py2coq.md: a
+    convert_to_variant_records body or a CLI record loop regenerated from the source differs from Model/Fusion.v):
+    run the correspondence on the quick budget with a stream of its own and return the first input on which the
+    implementation and the model (or the statement) part."""
+    import sys
+    from harness.lib import py2coq_search
+    return py2coq_search.first_disagreement(sys.modules[__name__], ctx, broken)
